@@ -859,32 +859,37 @@ def r10_retrieve_kinds(ctx, prog):
     """C_GetAttributeValue compares the caller's buffer with the size the ATTRIBUTE promises (its fixed size, or the size of the stored value for variable attributes) and then copies
     according to the kind of the STORED attribute.  The store is a file anybody may have damaged: for every (fixed size, stored kind) pair the number of bytes written - and read from the
     stored value - must not exceed the size that was checked."""
-    r = ctx.rule('C17.R10', 'P11Attribute::retrieve never copies more than the size it checked, whatever kind the object store returns for the attribute', floor=15, engine='E1 finite-domain evaluation')
+    r = ctx.rule('C17.R10', 'P11Attribute::retrieve never copies more than the size it checked, whatever kind the object store returns for the attribute', floor=25, engine='E1 finite-domain evaluation')
     f = prog.fn('P11Attribute::retrieve')
     ctx.analysed(f)
     KINDS = ['Boolean', 'UnsignedLong', 'ByteString', 'MechanismTypeSet', 'AttributeMap']
-    for size in (1, 8, -1):
+    label, mechs, wrapt, unwrapt = macro(prog, 'CKA_LABEL'), macro(prog, 'CKA_ALLOWED_MECHANISMS'), macro(prog, 'CKA_WRAP_TEMPLATE'), macro(prog, 'CKA_UNWRAP_TEMPLATE')
+    for size, atype, aname in [(1, None, ''), (8, None, ''), (-1, label, 'CKA_LABEL'), (-1, mechs, 'CKA_ALLOWED_MECHANISMS'), (-1, wrapt, 'CKA_WRAP_TEMPLATE'), (-1, unwrapt, 'CKA_UNWRAP_TEMPLATE')]:
         for k in KINDS:
             cenv = {'size': size if size > 0 else 2 ** 64 - 1, 'checks': 0, 'osobject': 1, param_name(f, 3): 1, param_name(f, 2): 1, '*' + param_name(f, 3): 4096, param_name(f, 1): 0,
                     re.compile(r'attributeExists(@\d+)?\(.*\)'): 1, re.compile(r'size\(get\w+Value(@\d+)?\(.*\)\)'): 16}
             for kk in KINDS:
                 cenv[re.compile(r'is%sAttribute(@\d+)?\(.*\)' % kk)] = int(kk == k)
+            if atype is not None:
+                cenv['type'] = atype
             o = Outcomes(f, prog, cenv=cenv, record_calls={'memcpy', 'retrieveAttributeMap'})
             o.CAP = 64
             o.LOOP_ROUNDS = 1
             o.go()
             r.paths += len(o.outcomes)
             wr = sorted({(e[1], e[3]) for oc in o.outcomes for e in oc['events'] if e[0] == 'call' or (e[0] == 'write' and re.search(r'\b(%s|pTemplate)\b' % param_name(f, 2), e[1]))})
-            site = 'fixed size %s, stored as %s' % (size if size > 0 else 'none (variable)', k)
+            site = 'fixed size %s, stored as %s' % (size if size > 0 else 'none (variable, %s)' % aname, k)
             written = {'Boolean': 1, 'UnsignedLong': 8}.get(k)
-            consistent = (size == -1 and written is None) or (written is not None and size == written)
+            # a variable-size attribute is delivered as bytes, as an array of mechanism types or as an array of CK_ATTRIBUTE: the stored kind must be the kind of the attribute type
+            kind_of_type = {mechs: 'MechanismTypeSet', wrapt: 'AttributeMap', unwrapt: 'AttributeMap'}.get(atype, 'ByteString')
+            consistent = (size == -1 and written is None and (k == kind_of_type or k == 'ByteString')) or (written is not None and size == written)
             harmless = written is not None and size > 0 and written <= size
             if not o.outcomes:
                 r.undecided(f['qname'], site, 'no path', file=f['file'], line=f['line'])
             elif wr and not consistent and not harmless:
                 r.violation(f['qname'], site, 'the buffer is checked against %s byte(s) and then %s (line %s): an object file that stores the attribute with this kind makes C_GetAttributeValue %s' % (
                     size, 'an unsigned long (8 bytes) is stored into it' if k == 'UnsignedLong' else 'a value of unrelated length is copied', wr[0][1],
-                    'write past the caller\'s buffer' if k != 'ByteString' else 'read past the stored value'), file=f['file'], line=wr[0][1])
+                    'write past the caller\'s buffer / take the caller\'s byte buffer for an array of CK_ATTRIBUTE' if k != 'ByteString' else 'read past the stored value'), file=f['file'], line=wr[0][1])
             else:
                 r.ok(f['qname'], site, 'copies %s' % (', '.join('%s@%s' % w for w in wr) if wr else 'nothing: rejected'), file=f['file'], line=f['line'])
 
